@@ -82,6 +82,7 @@ def explore(world, runner, max_paths=4000):
         pr.inlined = ctx.inlined
         pr.modelled = ctx.modelled
         pr.pc = list(ctx.pc)
+        pr.replay_state = getattr(ctx, 'replay_state', None)
         results.append(pr)
         work.extend(ctx.alts)
         if len(results) > max_paths:
@@ -267,90 +268,109 @@ def _align(ctx, t1, t2):
 # ----------------------------------------------------------------------------------------
 # verification of one function against its contract
 
+def setup_path(ctx, contract):
+    """Symbolic arguments, precondition, deep-copied entry state and the model's expectation."""
+    from .nplib import PI_AXIOMS, deepcopy_value
+    short = contract.qualname.replace('lentil.', '')
+    ctx.verifying = contract.qualname
+    ctx.no_model = set(contract.no_model)
+    for ax in PI_AXIOMS:
+        ctx.assume(ax)
+    env = contract.params(ctx)
+    if contract.pre is not None:
+        ctx.assume(contract.pre(ctx, env))
+    # vacuity canary: the precondition must be satisfiable
+    if not ctx.sat(z3.BoolVal(True)):
+        ctx.oblige(short + '::requires.satisfiable', False, kind='vacuity')
+        raise PathEnd()
+    env0 = deepcopy_value(ctx, env, {})
+    expected = None
+    if contract.model is not None:
+        env_m = deepcopy_value(ctx, env, {})
+        try:
+            expected = Outcome('return', contract.model(ctx, env_m))
+        except Raised as r:
+            expected = Outcome('raise', exc=r.exc)
+        expected.env = env_m
+    return env, env0, expected
+
+
+def execute_body(ctx, world, contract, func, env):
+    mark_params(env)
+    try:
+        if func.cls is not None and func.name == '__init__':
+            value = world.interp.call_function(ctx, func, [env[k] for k in param_names(func)], {})
+        else:
+            value = world.interp.run_body(ctx, func, dict(env))
+        out = Outcome('return', value)
+    except Raised as r:
+        out = Outcome('raise', exc=r.exc)
+        out.msg = r.msg
+    out.env = env
+    out.writes = list(ctx.events)
+    return out
+
+
+def check_outcome(ctx, contract, env0, env, expected, out, frame_writes):
+    """Obligations relating the outcome to the contract: model, raises, frame, property clauses."""
+    short = contract.qualname.replace('lentil.', '')
+    tag = '[%s]' % contract.tag if getattr(contract, 'tag', None) else ''
+    if expected is not None:
+        if expected.kind != out.kind or (out.kind == 'raise' and expected.exc != out.exc):
+            ctx.oblige('%s::outcome%s' % (short, tag), False, info={
+                'expected': (expected.kind, expected.exc), 'observed': (out.kind, out.exc)})
+        elif out.kind == 'return':
+            if contract.compare is not None:
+                contract.compare(ctx, short, env, expected.env, out.value, expected.value)
+            else:
+                oblige_equal(ctx, '%s::spec.result%s' % (short, tag), out.value, expected.value)
+                for p in sorted(contract.modifies):
+                    oblige_equal(ctx, '%s::spec.final[%s]%s' % (short, p, tag), env[p], expected.env[p])
+    else:
+        if out.kind == 'raise':
+            cond = contract.raises.get(out.exc)
+            if cond is None:
+                ctx.oblige('%s::raises.none[%s]%s' % (short, out.exc, tag), False,
+                           info={'exc': out.exc, 'msg': str(getattr(out, 'msg', None))})
+            else:
+                ctx.oblige('%s::raises.only_if[%s]%s' % (short, out.exc, tag), cond(ctx, env0))
+        else:
+            for exc, cond in contract.raises.items():
+                ctx.oblige('%s::raises.if[%s]%s' % (short, exc, tag), S.not_(cond(ctx, env0)))
+    # --- frame ---
+    for (origin, desc) in frame_writes:
+        if isinstance(origin, str) and origin.startswith('param:'):
+            root = origin.split(':', 1)[1].split('.')[0].split('[')[0]
+            if root not in contract.modifies:
+                ctx.oblige('%s::frame[%s]%s' % (short, origin.split(':', 1)[1], tag), False, kind='frame',
+                           info={'write': desc})
+        elif isinstance(origin, str) and origin.startswith('global:'):
+            ctx.oblige('%s::frame[%s]%s' % (short, origin, tag), False, kind='frame', info={'write': desc})
+    # --- property-level clauses ---
+    if out.kind == 'raise' and expected is None and not contract.raises and contract.posts:
+        pass    # already reported through ::raises.none
+    else:
+        for name, fn in contract.posts:
+            if out.kind == 'raise' and not getattr(fn, 'on_raise', False):
+                continue
+            r = fn(ctx, env0, env, out)
+            if r is not None:
+                ctx.oblige('%s::%s%s' % (short, name, tag), r)
+    if contract.witnesses:
+        wit = {k: f(ctx, env0) for k, f in contract.witnesses.items()}
+        for ob in ctx.obligations:
+            ob.info.setdefault('witness', wit)
+
+
 def verify_function(world, contract, max_paths=4000):
     func = world.repo.function(contract.qualname)
-    short = contract.qualname.replace('lentil.', '')
 
     def runner(ctx):
-        ctx.verifying = contract.qualname
-        ctx.no_model = set(contract.no_model)
-        from .nplib import PI_AXIOMS, deepcopy_value
-        for ax in PI_AXIOMS:
-            ctx.assume(ax)
-        env = contract.params(ctx)
-        if contract.pre is not None:
-            ctx.assume(contract.pre(ctx, env))
-        # vacuity canary: the precondition must be satisfiable
-        if not ctx.sat(z3.BoolVal(True)):
-            ctx.oblige(short + '::requires.satisfiable', False, kind='vacuity')
-            raise PathEnd()
-        env0 = deepcopy_value(ctx, env, {}) if True else env
-        expected = None
-        if contract.model is not None:
-            env_m = deepcopy_value(ctx, env, {})
-            try:
-                expected = Outcome('return', contract.model(ctx, env_m))
-            except Raised as r:
-                expected = Outcome('raise', exc=r.exc)
-            expected.env = env_m
-        mark_params(env)
-        try:
-            if func.cls is not None and func.name == '__init__':
-                value = world.interp.call_function(ctx, func, [env[k] for k in param_names(func)], {})
-            else:
-                value = world.interp.run_body(ctx, func, dict(env))
-            out = Outcome('return', value)
-        except Raised as r:
-            out = Outcome('raise', exc=r.exc)
-            out.msg = r.msg
-        out.env = env
-        # --- outcome against model ---
-        if expected is not None:
-            if expected.kind != out.kind or (out.kind == 'raise' and expected.exc != out.exc):
-                ctx.oblige('%s::outcome' % short, False, info={
-                    'expected': (expected.kind, expected.exc), 'observed': (out.kind, out.exc)})
-            elif out.kind == 'return':
-                if contract.compare is not None:
-                    contract.compare(ctx, short, env, expected.env, out.value, expected.value)
-                else:
-                    oblige_equal(ctx, '%s::spec.result' % short, out.value, expected.value)
-                    for p in sorted(contract.modifies):
-                        oblige_equal(ctx, '%s::spec.final[%s]' % (short, p), env[p], expected.env[p])
-        else:
-            if out.kind == 'raise':
-                cond = contract.raises.get(out.exc)
-                if cond is None:
-                    ctx.oblige('%s::raises.none[%s]' % (short, out.exc), False,
-                               info={'exc': out.exc, 'msg': str(getattr(out, 'msg', None))})
-                else:
-                    ctx.oblige('%s::raises.only_if[%s]' % (short, out.exc), cond(ctx, env0))
-            else:
-                for exc, cond in contract.raises.items():
-                    ctx.oblige('%s::raises.if[%s]' % (short, exc), S.not_(cond(ctx, env0)))
-        # --- frame ---
-        for (target, desc) in ctx.events:
-            origin = getattr(target, 'origin', 'fresh')
-            if isinstance(origin, str) and origin.startswith('param:'):
-                root = origin.split(':', 1)[1].split('.')[0]
-                if root not in contract.modifies:
-                    ctx.oblige('%s::frame[%s]' % (short, origin.split(':', 1)[1]), False, kind='frame',
-                               info={'write': desc})
-            elif isinstance(origin, str) and origin.startswith('global:'):
-                ctx.oblige('%s::frame[%s]' % (short, origin), False, kind='frame', info={'write': desc})
-        # --- property-level clauses ---
-        if out.kind == 'raise' and expected is None and not contract.raises and contract.posts:
-            pass    # already reported through ::raises.none
-        else:
-            for name, fn in contract.posts:
-                if out.kind == 'raise' and not getattr(fn, 'on_raise', False):
-                    continue
-                r = fn(ctx, env0, env, out)
-                if r is not None:
-                    ctx.oblige('%s::%s' % (short, name), r)
-        if contract.witnesses:
-            wit = {k: f(ctx, env0) for k, f in contract.witnesses.items()}
-            for ob in ctx.obligations:
-                ob.info.setdefault('witness', wit)
+        env, env0, expected = setup_path(ctx, contract)
+        ctx.replay_state = (env0, expected)
+        out = execute_body(ctx, world, contract, func, env)
+        writes = [(getattr(t, 'origin', 'fresh'), d) for (t, d) in ctx.events if not isinstance(t, str)]
+        check_outcome(ctx, contract, env0, env, expected, out, writes)
     return explore(world, runner, max_paths)
 
 
@@ -396,7 +416,8 @@ def mark_params(env):
 # discharge
 
 class Verdict:
-    def __init__(self, ob, status, model=None, solver='z3', time_s=0.0, reason=None):
+    def __init__(self, ob, status, model=None, solver='z3', time_s=0.0, reason=None, z3model=None):
+        self.z3model = z3model
         self.ob = ob
         self.status = status        # discharged | failed | undecided
         self.model = model
@@ -422,7 +443,7 @@ def discharge(ob, timeout_ms=10000, use_cvc5=False):
         for d in m.decls():
             if d.arity() == 0:
                 model[d.name()] = str(m[d])
-        return Verdict(ob, 'failed', model=model, solver='z3', time_s=dt)
+        return Verdict(ob, 'failed', model=model, solver='z3', time_s=dt, z3model=m)
     # unknown: retry with a different tactic set before giving up
     for tac in ('qfnra-nlsat', 'smt'):
         try:
@@ -437,7 +458,7 @@ def discharge(ob, timeout_ms=10000, use_cvc5=False):
             if r2 == z3.sat:
                 m = s2.model()
                 model = {d.name(): str(m[d]) for d in m.decls() if d.arity() == 0}
-                return Verdict(ob, 'failed', model=model, solver='z3:' + tac, time_s=time.time() - t0)
+                return Verdict(ob, 'failed', model=model, solver='z3:' + tac, time_s=time.time() - t0, z3model=m)
         except z3.Z3Exception:
             pass
     return Verdict(ob, 'undecided', solver='z3', time_s=time.time() - t0, reason=str(s.reason_unknown()))
